@@ -45,6 +45,13 @@ def main():
     if n >= 3:
         st = sorted(sc.state, key=lambda s: s.name)
         sc.state_model[st[2]] = sc.state_model[st[1]]
+    # an update written in a form simplify() shortens (sin^2 + cos^2, a perfect square under a root sharing sin/cos with the rest):
+    # generating from the definition as written and from a pre-simplified copy of it give different text
+    st0 = sorted(sc.state, key=lambda s: s.name)
+    import sympy as _sp
+
+    h, w = st0[0], st0[-1]
+    sc.state_model[st0[0]] = sc.state_model[st0[0]] + (_sp.sin(h) ** 2 + _sp.cos(h) ** 2) * w + _sp.sqrt((w * _sp.cos(h)) ** 2 + (w * _sp.sin(h)) ** 2 + 1)
     rng = random.Random(order_seed)
 
     def decl(xs):
@@ -92,12 +99,18 @@ def main():
             source3 = "\n".join(cpp.source_from_ast(generator=gen3))
             pm = py.compile(model, calibration_map=dict(cm), config={"common_subexpression_elimination": cse})
             ekf = py.compile_ekf(model, dict(pn), {a: dict(b) for a, b in sm.items()}, {a: dict(b) for a, b in sn.items()}, calibration_map=dict(cm), config={"common_subexpression_elimination": cse})
+            # ... and the C++ generated once more from the SAME definition objects AFTER the python back end has compiled them
+            genc = cpp._generate_ekf_function_bodies("x/generated/formak/model.h", "generated", model, dict(pn), {a: dict(b) for a, b in sm.items()}, {a: dict(b) for a, b in sn.items()}, dict(cm), cfg)
+            header_c = "\n".join(cpp.header_from_ast(generator=genc))
+            source_c = "\n".join(cpp.source_from_ast(generator=genc))
     finally:
         os.chdir(old)
     out["header_sha256"] = hashlib.sha256(header.encode()).hexdigest()
     out["source_sha256"] = hashlib.sha256(source.encode()).hexdigest()
     out["regenerated_header_sha256"] = hashlib.sha256(header_b.encode()).hexdigest()
     out["regenerated_source_sha256"] = hashlib.sha256(source_b.encode()).hexdigest()
+    out["after_python_compile_header_sha256"] = hashlib.sha256(header_c.encode()).hexdigest()
+    out["after_python_compile_source_sha256"] = hashlib.sha256(source_c.encode()).hexdigest()
     out["no_namespace_header_sha256"] = hashlib.sha256(header3.encode()).hexdigest()
     out["no_namespace_source_sha256"] = hashlib.sha256(source3.encode()).hexdigest()
     out["model_header_sha256"] = hashlib.sha256(header2.encode()).hexdigest()
